@@ -9,7 +9,7 @@ from common import cnat, cN, cZ, clist, cbool, copt
 
 ID = "C11"
 IMPORTS = ("From Boltons Require Import Lib.Prelude Lib.C11_Iface Spec.C11_Spec Model.C11_Model "
-           "Gen.C11_Gen Check.C11_Check.")
+           "Gen.C11_Gen Check.C11_Check. Open Scope N_scope.")
 CASE_TYPE = "c11_case"
 VERDICT = "c11_verdict"
 EXPLAIN = "c11_explain"
@@ -37,7 +37,7 @@ TRUSTED = ["Model/C11_Model.v is hand-written; tied to boltons.setutils.IndexedS
            "the source each run; C11_source_real_index / C11_source_apparent_index prove them equal to the model's loops)"]
 
 DG_MOD = 2305843009213693951
-BAD_TOK = 4999
+BAD_TOK = 999999
 
 
 def translators(repo):
@@ -1026,20 +1026,32 @@ def _run_history(case, IndexedSet):
 # rendering for Coq
 # ---------------------------------------------------------------------------
 def _n(n):
-    """nat numeral; nat_scope is the default scope of the case files, so no %nat suffix (parsing cost)"""
-    assert isinstance(n, int) and 0 <= n < 5000, n
+    """token numeral (N); the case files open N_scope, so tokens carry no suffix (parsing cost)"""
+    assert isinstance(n, int) and n >= 0, n
     return "%d" % n
 
 
+def _nat(n):
+    """nat numeral (lengths, positions, steps)"""
+    assert isinstance(n, int) and 0 <= n < 5000, n
+    return "%d%%nat" % n
+
+
 EXN = {"KeyError": "KeyError", "IndexError": "IndexError", "ValueError": "ValueError", "TypeError": "TypeError",
-       "NotAFreshIndexedSet": "(OtherExn 21)", "WrongResultType": "(OtherExn 22)",
-       "NotABool": "(OtherExn 23)", "NotANat": "(OtherExn 24)"}
+       "NotAFreshIndexedSet": "(OtherExn 21%nat)", "WrongResultType": "(OtherExn 22%nat)",
+       "NotABool": "(OtherExn 23%nat)", "NotANat": "(OtherExn 24%nat)"}
 
 
 def _toks(l):
     if len(l) >= 32 and l == list(range(l[0], l[0] + len(l))):
-        return "(seq %s %s)" % (_n(l[0]), _n(len(l)))            # computed by Coq, not parsed as a literal
+        return "(nseq %s %s)" % (_nat(l[0]), _nat(len(l)))       # computed by Coq, not parsed as a literal
     return clist(_n(t) for t in l)
+
+
+def _nats(l):
+    if len(l) >= 32 and l == list(range(l[0], l[0] + len(l))):
+        return "(seq %s %s)" % (_nat(l[0]), _nat(len(l)))
+    return "(" + clist("%d" % t for t in l) + ")%nat"
 
 
 def _oz(x):
@@ -1088,7 +1100,7 @@ def _op(op, orders):
     if k == "get":
         return "GetItem %s" % cZ(op[1])
     if k == "slice":
-        return "Slice %s %s %s" % (_oz(op[1]), _oz(op[2]), "None" if op[3] is None else "(Some %s)" % _n(op[3]))
+        return "Slice %s %s %s" % (_oz(op[1]), _oz(op[2]), "None" if op[3] is None else "(Some %s)" % _nat(op[3]))
     if k == "index":
         return "Index %s" % _n(op[1])
     if k == "count":
@@ -1111,9 +1123,9 @@ def _ret(r):
     if t == "bool":
         return "(Ok (RBool %s))" % cbool(r[1])
     if t == "nat":
-        return "(Ok (RNat %s))" % _n(r[1])
+        return "(Ok (RNat %s))" % _nat(r[1])
     if t == "snap":
-        return "(Ok (RSnap %s %s %s %s %s))" % (_toks(r[1]), _toks(r[2]), _toks(r[3]), _toks(r[4]), _toks(r[5]))
+        return "(Ok (RSnap %s %s %s %s %s))" % (_toks(r[1]), _toks(r[2]), _toks(r[3]), _toks(r[4]), _nats(r[5]))
     raise AssertionError(r)
 
 
@@ -1127,9 +1139,9 @@ def to_coq(case, obs):
             dg = "(dd %s)" % cN(ob["dg"][0])
         else:
             dg = "(Some (%s, %s))" % (cN(ob["dg"][0]), cN(ob["dg"][1]))
-        steps.append("(%s, mkObs %s %s %s)" % (_op(op, ob["orders"]), _ret(ob["ret"]), _n(ob["len"]), dg))
+        steps.append("(%s, mkObs %s %s %s)" % (_op(op, ob["orders"]), _ret(ob["ret"]), _nat(ob["len"]), dg))
     factor = case.get("factor")
-    return "mkCase %s %s %s" % (cbool(case["digests"]), "None" if factor is None else "(Some %s)" % _n(factor),
+    return "mkCase %s %s %s" % (cbool(case["digests"]), "None" if factor is None else "(Some %s)" % _nat(factor),
                                 clist(steps))
 
 
